@@ -132,6 +132,14 @@ func (r *repository) UpdateRuleSet(srcID string, rules []rule.Rule) error {
 		return ruleGone || ruleChanged
 	})
 
+	// the position of a rule within the rule set defines its precedence among the rules sharing
+	// a path expression. Adding just the new and the changed rules would put them behind the
+	// unchanged ones. So, if there is anything to add, the entire rule set is replaced.
+	if len(toBeAdded) != 0 {
+		toBeDeleted = applicable
+		toBeAdded = rules
+	}
+
 	tmp := r.index.Clone()
 
 	// delete rules
